@@ -15,7 +15,9 @@ CONSTANTS NFIELDS, MAXFAULTS
 
 \* value classes for a field whose true value is t and whose width is b bits
 Values == {"0", "1", "2", "3", "4", "7", "8", "t-1", "t+1", "t+2", "2^16-1", "2^24-1", "2^31-1", "2^31",
-           "max-9", "max-1", "max", "t*2", "t/2", "flip-low-bit", "flip-high-bit"}
+           "max-9", "max-1", "max", "t*2", "t/2", "flip-low-bit", "flip-high-bit",
+           \* for length fields: the largest value whose region still ends inside its container, and just around it
+           "limit-1", "limit", "limit+1", "limit+5", "limit+10"}
 \* structural operations on the chunk that contains the field
 StructOps == {"truncate-here", "delete-chunk", "duplicate-chunk", "swap-with-next", "zero-length", "drop-pad", "splice-foreign"}
 
